@@ -104,6 +104,21 @@ class Facts:
             out.append(self.bodies[path])
         pre = path + '::{'
         out.extend(b for p, b in sorted(self.bodies.items()) if p.startswith(pre))
+        # closures of helpers that were spliced into `path` (inline.py re-parents them)
+        if getattr(self, 'inlined', None):
+            have = {b.path for b in out}
+            changed = True
+            while changed:
+                changed = False
+                for p, b in sorted(self.bodies.items()):
+                    if p not in have and b.parent in have and b.parent != p and not p.startswith(b.parent + '::{'):
+                        out.append(b)
+                        have.add(p)
+                        changed = True
+                    elif p not in have and any(p.startswith(h + '::{') for h in have if h != path and h in self.bodies and not h.startswith(pre)):
+                        out.append(b)
+                        have.add(p)
+                        changed = True
         return out
 
     def bodies_in_file(self, suffix):
